@@ -32,6 +32,21 @@ def spec():
             good=[5, 0, 10], bad=[50, -1, "x", 2.5, None],
             vals=[0, 10, 7, -1, 11, "x", 2.5, None, math.nan, True],
             ok=lambda v: isinstance(v, int) and 0 <= v <= 10),
+        "intfrac": dict(
+            # integer parameter declared with fractional bounds
+            mk=lambda k, par, pr, d, ro: InputParameterInt(
+                k, "n", d, pr, parent=par, read_only=ro, min_value=0.5,
+                max_value=2.75),
+            good=[1, 2], bad=[0, 3, 1.5, None],
+            vals=[1, 2, 0, 3, -1, 1.5, "x", None],
+            ok=lambda v: isinstance(v, int) and 0.5 <= v <= 2.75),
+        "intneg": dict(
+            mk=lambda k, par, pr, d, ro: InputParameterInt(
+                k, "n", d, pr, parent=par, read_only=ro, min_value=-2.5,
+                max_value=-0.5),
+            good=[-1, -2], bad=[0, -3, None],
+            vals=[-1, -2, 0, -3, 1, -0.5, None],
+            ok=lambda v: isinstance(v, int) and -2.5 <= v <= -0.5),
         "float": dict(
             mk=lambda k, par, pr, d, ro: InputParameterFloat(
                 k, "n", d, pr, parent=par, read_only=ro, min_value=0.0,
